@@ -16,14 +16,16 @@ let z_str z = sb (spec_show_int z)
 let int_vars = [ "i5", 5; "i3", 3; "i0", 0; "neg", -7; "big", 9007199254740991; "starts", 2; "with", 4; "defined", 6 ]
 let str_vars = [ "s", "str"; "emp", ""; "sp", "a b"; "q", "it's"; "num", "12" ]
 let bool_vars = [ "yes", true; "no", false ]
-let list_vars = [ "l"; "el"; "ls" ]
+let list_vars = [ "l"; "el"; "ls"; "lng" ]
 let env : spec_env =
   List.map (fun (k, v) -> (bs k, VInt (z_of_int v))) int_vars
   @ List.map (fun (k, v) -> (bs k, VStr (bs v))) str_vars
   @ List.map (fun (k, v) -> (bs k, VBool v)) bool_vars
   @ [ (bs "l", VList (LAny, [ VInt (z_of_int 1); VInt (z_of_int 2); VInt (z_of_int 3) ]));
       (bs "el", VList (LAny, []));
-      (bs "ls", VList (LAny, [ VStr (bs "a"); VStr (bs "b") ])) ]
+      (bs "ls", VList (LAny, [ VStr (bs "a"); VStr (bs "b") ]));
+      (* long enough for whatever a container look-up does differently above some size *)
+      (bs "lng", VList (LAny, List.init 60 (fun i -> VInt (z_of_int (i + 1))))) ]
 
 (* ---- canonical S-expression, the same syntax as VerifSexp in hooks/verif_hooks_parse.go ---- *)
 let under s = String.map (fun c -> if c = ' ' then '_' else c) s
@@ -168,7 +170,7 @@ and gen_list r d : expr =
     match rint r 8 with
     | 0 -> v (pickl r list_vars)
     | 1 | 2 -> EArr (List.init (rint r 4) (fun _ -> gen_any r (d - 1)))
-    | 3 -> ECall (bs "range", [ ilit (rint r 3); ilit (2 + rint r 3) ])
+    | 3 -> if rint r 4 = 0 then ECall (bs "range", [ ilit 1; ilit (55 + rint r 10) ]) else ECall (bs "range", [ ilit (rint r 3); ilit (2 + rint r 3) ])
     | 4 -> ECond (gen_bool r (d - 1), gen_list r (d - 1), gen_list r (d - 1))
     | 5 -> EFilter (v "nothing", bs "default", [ gen_list r (d - 1) ])
     | 6 -> EArr [ gen_int r (d - 1); gen_str r (d - 1) ]
@@ -360,6 +362,10 @@ let table_cases : (string * expr) list =
     "'s' ~ 't' starts with 's'", b BStartsWith (b BConcat (slit "s") (slit "t")) (slit "s");
     "'s' ~ 't' ends with 's' ~ 't'", b BEndsWith (b BConcat (slit "s") (slit "t")) (b BConcat (slit "s") (slit "t"));
     "1 + 2 in l", b BIn (b BAdd (i 1) (i 2)) (v "l");
+    "1 + 2 in lng", b BIn (b BAdd (i 1) (i 2)) (v "lng");
+    "6 / 2 in lng", b BIn (b BDiv (i 6) (i 2)) (v "lng");
+    "i3 * 20 in lng", b BIn (b BMul (v "i3") (i 20)) (v "lng");
+    "i3 * 20 + 1 not in lng", b BNotIn (b BAdd (b BMul (v "i3") (i 20)) (i 1)) (v "lng");
     "2 + 2 not in l", b BNotIn (b BAdd (i 2) (i 2)) (v "l");
     "2 + 3 * 4", b BAdd (i 2) (b BMul (i 3) (i 4));
     "2 * 3 + 4", b BAdd (b BMul (i 2) (i 3)) (i 4);
